@@ -127,6 +127,16 @@ def aa_fragment(rng):
     return t
 
 
+def frag_multiplier(rng, text, p=0.25):
+    """a node multiplier `|2` / `|3` on one node token of a coarse fragment text (a token followed by another bracket
+    token or by the end of the text; never next to a ring marker)"""
+    sites = [m.end() for m in NODE_RE.finditer(text) if text[m.end():m.end() + 1] in ('[', '')]
+    if not sites or rng.random() >= p:
+        return text
+    i = rng.choice(sites)
+    return text[:i] + '|%d' % rng.randint(2, 3) + text[i:]
+
+
 def cg_fragment(rng, names):
     tmpl = rng.choice(c14.CG_TEMPLATES)
     t = ''
@@ -135,7 +145,7 @@ def cg_fragment(rng, names):
             t += '[#%s]' % rng.choice(names)
         else:
             t += re.sub(r'\[#Z\]', lambda _: '[#%s]' % rng.choice(names), tok)
-    return annotate_nodes(rng, zero_marker(rng, t), p=0.5, lk=2)
+    return annotate_nodes(rng, frag_multiplier(rng, zero_marker(rng, t)), p=0.5, lk=2)
 
 
 def rand_valid(rng):
@@ -152,16 +162,20 @@ def rand_valid(rng):
         unit_start = len(base) - 1
         base = base[:-1] + unit + '}'
     used = sorted({m.group(0)[2:-1].split(';')[0] for m in NODE_RE.finditer(base)})
+    bang = rng.random() < 0.15       # the cuts of the all-atom level are `!` bonds (shared atoms: squash_atoms merges them)
+    sq = (lambda s: s.replace('[$]', '[!]')) if bang else (lambda s: s)
     if mode == 'aa':
-        levels = ['{' + ','.join('#%s=%s' % (n, aa_fragment(rng)) for n in used) + '}']
+        levels = ['{' + ','.join('#%s=%s' % (n, sq(aa_fragment(rng))) for n in used) + '}']
     else:
         sub = rng.sample(['X', 'Y', 'Z'], rng.randint(1, 3))
         lv1 = {n: cg_fragment(rng, sub) for n in used}
         levels = ['{' + ','.join('#%s=%s' % kv for kv in lv1.items()) + '}']
         if mode == 'three':
             used2 = sorted({m.group(0)[2:-1].split(';')[0] for t in lv1.values() for m in NODE_RE.finditer(t)})
-            levels.append('{' + ','.join('#%s=%s' % (n, aa_fragment(rng)) for n in used2) + '}')
-    return {'parts': [base] + levels, 'aa': mode != 'cg', 'unit_start': unit_start}
+            levels.append('{' + ','.join('#%s=%s' % (n, sq(aa_fragment(rng))) for n in used2) + '}')
+    feat = ('bang-cuts:' if bang and mode != 'cg' else '') + \
+           ('fragment-multiplier:' if mode != 'aa' and re.search(r'\]\|\d', levels[0]) else '')
+    return {'parts': [base] + levels, 'aa': mode != 'cg', 'unit_start': unit_start, 'feat': feat}
 
 
 # ----------------------------------------------------------------------------- structure
@@ -556,6 +570,8 @@ def mk_case(f, v, vs):
     """a fault of the valid string v (text vs); faults that first extend the valid string carry their own `valid`"""
     d = dict(f, aa=v['aa'])
     d.setdefault('valid', vs)
+    if v.get('feat'):
+        d['feat'] = v['feat']
     return d
 
 
@@ -599,14 +615,23 @@ class C20(common.Prop):
         virt = {'parts': ['{[#A][#B][#A]}', '{#A=[$]CC[$],#B=[$]CO[$]}'], 'aa': True}
         virt2 = {'parts': ['{[#A].([#B])[#C]([#A][#B])|2}', '{#A=[$]CC[$],#B=[$]N,#C=[$]C([$])C[$]}'], 'aa': True, 'unit_start': 14}
         virt3 = {'parts': ['{[#S]1.2[#S].3[#R]1.[#T]23.[#S][#T]}', '{#S=OC[$]C[$]O,#R=[$]OC[$]CO,#T=[$]C}'], 'aa': True}
-        for v in (base, cg, three, cg2, unit, zero, zerocg, virt, virt2, virt3):
-            for f in all_faults(v):
+        cgm = {'parts': ['{[#A][#B]}', '{#A=[$][#X;w=2]|3[#Y][$],#B=[$][#Y][#X]|2[$]}'], 'aa': False, 'feat': 'fragment-multiplier:'}
+        threem = {'parts': ['{[#A]|2}', '{#A=[$][#X]|2[#Y;w=2][$]}', '{#X=[$]CC[$],#Y=[$][O;0.5]C[$]}'], 'aa': True,
+                  'feat': 'fragment-multiplier:'}
+        bangs = {'parts': ['{[#A;q=1][#B][#A]}', '{#A=[!]C[C;x=R;0.5][!],#B=[!]CO[!]}'], 'aa': True, 'feat': 'bang-cuts:'}
+        for v in (base, cg, three, cg2, unit, zero, zerocg, virt, virt2, virt3, cgm, threem, bangs):
+            fs = all_faults(v)
+            if v not in (virt, virt2, virt3):
+                # the several-nodes family in full on the three strings above, every third case elsewhere
+                multi = [f for f in fs if f.get('multi')]
+                fs = [f for f in fs if not f.get('multi')] + multi[::3]
+            for f in fs:
                 out.append(mk_case(f, v, '.'.join(v['parts'])))
         # histories that re-use one list of fragment dicts (from_fragment_dicts)
         for v in (virt, virt2, virt3, base, three):
-            for f in frag_faults(v) + multi_frag_faults(v):
-                if f['level'] == 0:
-                    out.append(dict(mk_case(f, v, '.'.join(v['parts'])), history={'mode': 'frag_dicts'}))
+            fs = [f for f in frag_faults(v) + multi_frag_faults(v) if f['level'] == 0]
+            for f in (fs if v is virt else fs[::2]):
+                out.append(dict(mk_case(f, v, '.'.join(v['parts'])), history={'mode': 'frag_dicts'}))
         # call histories: a fragment library is built from the very fragment list of the string first
         lib = {'parts': ['{[#A][#A]([#A])[#A]}', '{#A=[$]CC[$][$]}'], 'aa': True}
         for v in (lib, cg, three, base):
@@ -756,6 +781,7 @@ class C20(common.Prop):
             hist += 'in-multiplied-unit:'
         if case.get('multi'):
             hist += 'name-on-several-nodes:%s:' % case['multi']
+        hist += case.get('feat', '')
         return '%sfault%d%s:%dlevels:%s' % (hist, case['fault'], where, levels, impl['exc'] or 'GRAPH')
 
 
